@@ -27,6 +27,18 @@ theorem C17_sub2ind_lt (s i : List Nat) (h : InBounds s i) : sub2ind s i < numel
 theorem C17_ind2sub_inBounds (s : List Nat) (n : Nat) (h : n < numel s) :
     InBounds s (ind2sub s n) := ind2sub_inBounds h
 
+/-- Distinct in-bounds subscripts have distinct linear indices (so a coordinate list and its
+linearised form carry the same information — what `sptensor` relies on when it sorts and
+deduplicates by linear index). -/
+theorem C17_sub2ind_injective (s i j : List Nat) (hi : InBounds s i) (hj : InBounds s j)
+    (h : sub2ind s i = sub2ind s j) : i = j := by
+  rw [← C17_ind2sub_sub2ind s i hi, ← C17_ind2sub_sub2ind s j hj, h]
+
+/-- Distinct valid linear indices have distinct subscripts. -/
+theorem C17_ind2sub_injective (s : List Nat) (m n : Nat) (hm : m < numel s) (hn : n < numel s)
+    (h : ind2sub s m = ind2sub s n) : m = n := by
+  rw [← C17_sub2ind_ind2sub s m hm, ← C17_sub2ind_ind2sub s n hn, h]
+
 /-- Enumerating the subscripts in the model's order and linearising gives `0,1,…,numel-1`:
 the two maps are mutually inverse bijections. -/
 theorem C17_sub2ind_enum (s : List Nat) : (allSubs s).map (sub2ind s) = List.range (numel s) :=
@@ -172,6 +184,26 @@ theorem C17_khatrirao_reverse {α : Type} [Mul α] (Ms : List (Mat α)) :
     khatrirao Ms true = khatrirao Ms.reverse false := by
   simp [khatrirao]
 
+/-- `reverse=True` entrywise: the FIRST matrix varies fastest — row `sub2ind dims i`
+(the F-order linear index of the row subscripts), column `r`, holds `∏ₖ Mₖ[iₖ, r]`.  This is the
+layout `mttkrp` / `tenmat` rely on. -/
+theorem C17_khatrirao_reverse_entry {α : Type} [CommSemiring α] (Ms : List (Mat α)) (R : Nat) (i : List Nat)
+    (r : Nat) (hne : Ms ≠ []) (hR : ∀ M ∈ Ms, ∀ row ∈ M, row.length = R) (hr : r < R)
+    (hi : InBounds (Ms.map List.length) i) :
+    ∃ K, khatrirao Ms true = .ok K ∧ K.length = numel (Ms.map List.length) ∧
+      K.get (sub2ind (Ms.map List.length) i) r =
+        (List.zipWith (fun M ik => M.get ik r) Ms i).prod := by
+  rw [C17_khatrirao_reverse]
+  have hi' : InBounds (Ms.reverse.map List.length) i.reverse := by
+    rw [List.map_reverse]; exact kr_InBounds_reverse hi
+  obtain ⟨K, hK, hl, he⟩ := C17_khatrirao_entry Ms.reverse R i.reverse r (by simpa using hne)
+    (by intro M hM; exact hR M (List.mem_reverse.mp hM)) hr hi'
+  refine ⟨K, hK, ?_, ?_⟩
+  · rw [hl, List.map_reverse, numel_reverse]
+  · rw [List.map_reverse, List.reverse_reverse, List.reverse_reverse] at he
+    rw [he]
+    exact zipWith_reverse_prod _ Ms i (by simpa using hi.length_eq.symm)
+
 /-- differing column counts are rejected. -/
 theorem C17_khatrirao_rejects {α : Type} [Mul α] (M0 : Mat α) (rest : List (Mat α))
     (h : ∃ M ∈ rest, M.ncols ≠ M0.ncols) : khatrirao (M0 :: rest) false = .error .reject :=
@@ -179,5 +211,8 @@ theorem C17_khatrirao_rejects {α : Type} [Mul α] (M0 : Mat α) (rest : List (M
 
 example : khatrirao [[[1, 2], [3, 4]], [[5, 6], [7, 8]]] false
     = .ok ([[5, 12], [7, 16], [15, 24], [21, 32]] : Mat Int) := by decide
+
+example : khatrirao [[[1, 2], [3, 4]], [[5, 6], [7, 8]]] true
+    = .ok ([[5, 12], [15, 24], [7, 16], [21, 32]] : Mat Int) := by decide
 
 end Pyttb
